@@ -5,7 +5,7 @@
    user notifier, and never otherwise.  (For histories that also mutate the object graph the hypothesis
    is property C08.) *)
 From Coq Require Import ZArith List Bool Arith PeanoNat Lia.
-From TV Require Import C09.Model C09.Proofs C12.Model C12.Proofs.
+From TV Require Import C09.Model C09.Law C09.Proofs C09.Dyn C09.DynCount C09.DynSlot C12.Model C12.Proofs.
 Import ListNotations.
 
 Section Compose.
@@ -79,3 +79,41 @@ Section Compose.
       + intros _. split; [reflexivity|]. symmetry. apply view_upd_outside, N.
   Qed.
 End Compose.
+
+(* The same for MUTATIONS OF THE OBJECT GRAPH (Instance-link reassignment, in-place list / dict / set mutation), on
+   top of the invariant of C09/DynCount.v + DynSlot.v (the hooks are what the live registrations plan on the current
+   heap, [dinv]): the notifier loop of the mutated slot [sg] calls the property's handler k exactly once if a live
+   registration of k matches the slot, and not at all otherwise.  With [touched] := "some live registration of k
+   matches the slot", the mutation step is [faithful] for every view that does not change under untouched
+   mutations. *)
+Section ComposeDyn.
+  Variable W : Type.
+  Variable view : W -> list Z.
+
+  Definition touched_by (h : heap) (R : list reg) (k : key) (sg : obsv) : bool :=
+    existsb (fun r : reg => let '(k', g, x) := r in key_eqb k' k && l_matched h g x sg) R.
+
+  Theorem graph_mutations_are_faithful :
+    forall (h hrun : heap) (R : list reg) (H : hooks) (s : C09.Model.state) (sg : obsv) (t : bool)
+           (olds news : list oid) H' calls (k : key),
+      dinv h H R -> wfH H -> dead_handlers s = [] -> dead_objs s = [] ->
+      run_notifiers hrun s t (H sg) olds news H [] = (H', calls, None) ->
+      forall (cs : C12.Model.state W) (w' : W),
+        (touched_by h R k sg = false -> view (world cs) = view w') ->
+        faithful W view cs (Mut w' (touched_by h R k sg) (ncalls k calls)).
+  Proof.
+    intros h hrun R H s sg t olds news H' calls k I Wf Dh Do Rn cs w' Vl.
+    destruct (slot_calls h hrun R H s sg t olds news H' calls k I Wf Dh Do Rn) as [Le Iff].
+    assert (touched_by h R k sg = true <-> exists g x, In (k, g, x) R /\ l_matched h g x sg = true) as T.
+    { unfold touched_by. rewrite existsb_exists. split.
+      - intros ([[k' g] x] & Hin & Q). apply andb_true_iff in Q. destruct Q as [Qk M]. apply key_eqb_spec in Qk. subst.
+        exists g, x. split; assumption.
+      - intros (g & x & Hin & M). exists (k, g, x). split; [exact Hin|]. rewrite key_eqb_refl, M. reflexivity. }
+    cbn [faithful]. destruct (touched_by h R k sg) eqn:Tb.
+    - assert (ncalls k calls = 1%nat) as -> by (apply Iff, T; reflexivity).
+      split; [intros _; lia|]. split; [discriminate|lia].
+    - assert (ncalls k calls = 0%nat) as ->.
+      { destruct (Nat.eq_dec (ncalls k calls) 1) as [E|E]; [|lia]. apply Iff, T in E. discriminate. }
+      split; [intros N; elim N; apply Vl; reflexivity|]. split; [intros _; split; [reflexivity|apply Vl; reflexivity]|lia].
+  Qed.
+End ComposeDyn.
